@@ -73,6 +73,17 @@ def _v_bits(counts):
     return lambda ctx: __import__("symx.values", fromlist=["mkbytes"]).mkbytes([ctx.int("bit%d" % i, 0, 1) for i in range(ctx.choice("nbits", counts))])
 
 
+class _Derived:
+    """a value whose derived members are supplied as None: `build` is handed to build(), `want` is what parse must return"""
+
+    def __init__(self, build, want):
+        self.build, self.want = build, want
+
+
+def _v_derived(fn):
+    return lambda ctx: _Derived(*fn(ctx))
+
+
 class _Named:
     """prefixes the names of nested symbolic inputs"""
 
@@ -115,6 +126,12 @@ EXTRA = [
     ("LazyBound(lambda: Int24ub)", _v_int(0, 2 ** 24 - 1)), ("Struct('n'/Byte, 'v'/LazyBound(lambda: Bytes(this.n & 3)))", None),
     ("Transformed(Bytes(3), lambda b: b[::-1], 3, lambda b: b[::-1], 3)", _v_bytes(3)), ("Restreamed(Bytes(2), lambda b: bytes(reversed(b)), 2, lambda b: bytes(reversed(b)), 2, lambda n: n)", _v_bytes(2)),
     ("StopIf(this._params.stop) >> Byte", None), ("Sequence('a'/Byte, StopIf(this.a == 0), 'b'/Byte)", None, 2),
+    # derived members (Default, Const, Rebuild) supplied as None, with a later sibling whose layout depends on them: Sequence and Struct
+    ("Sequence('n'/Default(Byte, 2), 'items'/Array(this.n, Byte))", _v_derived(lambda ctx: (lambda a, b: ([None, [a, b]], [2, [a, b]]))(ctx.int("i0", 0, 255), ctx.int("i1", 0, 255)))),
+    ("Sequence('k'/Const(1, Byte), 'v'/IfThenElse(this.k == 1, Int16ub, Byte), 't'/Byte)", _v_derived(lambda ctx: (lambda a, t: ([None, a, t], [1, a, t]))(ctx.int("v", 0, 65535), ctx.int("t", 0, 255)))),
+    ("Sequence('w'/Default(Byte, this._params.w), 'v'/Switch(this.w, {1: Byte, 2: Int16ub}, default=Int24ub))", _v_derived(lambda ctx: (lambda a: ([None, a], [ctx.kw["w"], a]))(ctx.int("v", 0, 255)))),
+    ("Sequence('len'/Rebuild(Byte, this._params.n), 'body'/Bytes(this.len), 't'/Byte)", _v_derived(lambda ctx: (lambda b, t: ([None, b, t], [ctx.kw["n"], b, t]))(ctx.bytes("body", 2), ctx.int("t", 0, 255)))),
+    ("Struct('n'/Default(Byte, 2), 'items'/Array(this.n, Byte))", _v_derived(lambda ctx: (lambda a, b: (dict(items=[a, b]), dict(n=2, items=[a, b])))(ctx.int("i0", 0, 255), ctx.int("i1", 0, 255)))),
 ]
 
 
@@ -328,6 +345,11 @@ def _extra(ctx, C, p):
         kw = dict(a=ctx.int("kw.a", -40, 40), g=ctx.choice("kw.g", [1, 2, 4]))
     if "_params.stop" in source:
         kw = dict(stop=ctx.choice("kw.stop", [0, 1]))
+    if "_params.w" in source:
+        kw = dict(w=ctx.choice("kw.w", [1, 2, 3]))
+    if "_params.n" in source:
+        kw = dict(n=2)
+    ctx.kw = kw
     if vb is None:
         # the value is whatever parse returns for arbitrary input (then build must reproduce an encoding that parses to it)
         data0 = ctx.bytes("seed", seedlen)
@@ -338,6 +360,8 @@ def _extra(ctx, C, p):
     else:
         v = vb(ctx)
     vbuild = v
+    if isinstance(v, _Derived):
+        vbuild, v = v.build, v.want
     if "NamedTuple" in source and isinstance(v, dict):
         import types
         vbuild = types.SimpleNamespace(**v)          # NamedTuple over a Struct builds from any object with the fields as attributes
